@@ -26,6 +26,7 @@ const (
 	KP2WSHTrue // P2WSH(OP_TRUE)
 	KReturn    // OP_RETURN (unspendable)
 	KNonStd    // odd but spendable-by-nobody script
+	KP2TRS     // taproot output spent through the script path (tree of 1, 2 or 4 leaves; leaf = <key> CHECKSIG)
 	NKinds
 )
 
@@ -108,6 +109,56 @@ func (w *Wallet) tapKey(i int) (sec []byte, xonly []byte) {
 	return sec, q[1:33]
 }
 
+// tapTree is the script tree behind key i's script-path output: the spending leaf `<xonly key j> CHECKSIG`
+// (j = i+1), a merkle path of 0, 1 or 2 sibling hashes (i mod 3), the internal key (key i), the output key and
+// its parity.  Built from BIP341's definitions only.
+type tapTree struct {
+	leaf     []byte
+	leafHash [32]byte
+	path     [][32]byte
+	internal []byte // x-only internal key
+	out      []byte // x-only output key
+	parity   byte
+	leafKey  int
+}
+
+func tapLeafHash(script []byte) [32]byte {
+	var b bytes.Buffer
+	b.WriteByte(0xc0)
+	PutVarInt(&b, uint64(len(script)))
+	b.Write(script)
+	return TaggedHash("TapLeaf", b.Bytes())
+}
+
+func (w *Wallet) tapTree(i int) *tapTree {
+	i = i % len(w.priv)
+	j := (i + 1) % len(w.priv)
+	tt := &tapTree{leafKey: j, internal: append([]byte{}, w.pub[i][1:33]...)}
+	tt.leaf = append(push(w.pub[j][1:33]), 0xac)
+	tt.leafHash = tapLeafHash(tt.leaf)
+	k := tt.leafHash
+	for lvl := 0; lvl < i%3; lvl++ {
+		sib := tapLeafHash([]byte{0x51, byte(0x51 + lvl), byte(i)}) // hash of some other leaf / subtree
+		tt.path = append(tt.path, sib)
+		a, b := k[:], sib[:]
+		if bytes.Compare(a, b) > 0 {
+			a, b = b, a
+		}
+		k = TaggedHash("TapBranch", a, b)
+	}
+	d := new(big.Int).SetBytes(w.priv[i])
+	if w.pub[i][0] == 3 {
+		d.Sub(curveN, d)
+	}
+	t := TaggedHash("TapTweak", tt.internal, k[:])
+	d.Add(d, new(big.Int).SetBytes(t[:])).Mod(d, curveN)
+	sec := make([]byte, 32)
+	d.FillBytes(sec)
+	q := btc.PublicFromPrivate(sec, true)
+	tt.out, tt.parity = q[1:33], q[0]&1
+	return tt
+}
+
 // Script returns (and registers) the output script of the given kind for key i.
 func (w *Wallet) Script(kind, i int) []byte {
 	i = i % len(w.priv)
@@ -125,6 +176,8 @@ func (w *Wallet) Script(kind, i int) []byte {
 	case KP2TR:
 		_, x := w.tapKey(i)
 		pk = append([]byte{0x51, 0x20}, x...)
+	case KP2TRS:
+		pk = append([]byte{0x51, 0x20}, w.tapTree(i).out...)
 	case KTrue:
 		pk = []byte{0x51}
 	case KP2SHTrue:
@@ -305,6 +358,12 @@ func SegwitDigest(t *Tx, i int, scriptCode []byte, amount uint64, ht uint32) [32
 // TaprootDigest is BIP341 key-path (no annex); spent are the coins of ALL inputs.
 // ok=false where BIP341 defines no digest.
 func TaprootDigest(t *Tx, i int, spent []Coin, ht byte) (d [32]byte, ok bool) {
+	return TaprootDigestExt(t, i, spent, ht, nil, nil)
+}
+
+// TaprootDigestExt is the BIP341 digest with an optional annex and, for script-path spends (BIP342), the
+// leaf hash (key version 0, no OP_CODESEPARATOR executed).
+func TaprootDigestExt(t *Tx, i int, spent []Coin, ht byte, annex []byte, leaf *[32]byte) (d [32]byte, ok bool) {
 	switch ht {
 	case 0, 1, 2, 3, 0x81, 0x82, 0x83:
 	default:
@@ -348,7 +407,14 @@ func TaprootDigest(t *Tx, i int, spent []Coin, ht byte) (d [32]byte, ok bool) {
 		h := sha256.Sum256(o.Bytes())
 		b.Write(h[:])
 	}
-	b.WriteByte(0) // spend_type: key path, no annex
+	st := byte(0) // spend_type = ext_flag*2 + annex_present
+	if leaf != nil {
+		st |= 2
+	}
+	if annex != nil {
+		st |= 1
+	}
+	b.WriteByte(st)
 	if acp {
 		b.Write(t.In[i].Prev.Hash[:])
 		b.Write(le32(t.In[i].Prev.N))
@@ -359,6 +425,13 @@ func TaprootDigest(t *Tx, i int, spent []Coin, ht byte) (d [32]byte, ok bool) {
 	} else {
 		b.Write(le32(uint32(i)))
 	}
+	if annex != nil {
+		var a bytes.Buffer
+		PutVarInt(&a, uint64(len(annex)))
+		a.Write(annex)
+		h := sha256.Sum256(a.Bytes())
+		b.Write(h[:])
+	}
 	if base == SigSingle {
 		var o bytes.Buffer
 		o.Write(le64(t.Out[i].Value))
@@ -366,6 +439,11 @@ func TaprootDigest(t *Tx, i int, spent []Coin, ht byte) (d [32]byte, ok bool) {
 		o.Write(t.Out[i].Pk)
 		h := sha256.Sum256(o.Bytes())
 		b.Write(h[:])
+	}
+	if leaf != nil {
+		b.Write(leaf[:])
+		b.WriteByte(0)                          // key_version
+		b.Write([]byte{0xff, 0xff, 0xff, 0xff}) // codeseparator position: none executed
 	}
 	return TaggedHash("TapSighash", b.Bytes()), true
 }
@@ -429,9 +507,27 @@ func (w *Wallet) Sign(t *Tx, i int, spent []Coin, ht byte, corrupt int) string {
 		if si.Kind == KP2SHWPKH {
 			in.ScriptSig = push(append([]byte{0x00, 0x14}, h[:]...))
 		}
-	case KP2TR:
+	case KP2TR, KP2TRS:
 		kind = "bip341"
 		sec, _ := w.tapKey(key)
+		var tt *tapTree
+		var leaf *[32]byte
+		if si.Kind == KP2TRS {
+			// script path: the signature is made with the leaf's key over the BIP342 digest
+			kind = "bip342"
+			tt = w.tapTree(si.Key)
+			leaf = &tt.leafHash
+			lk := tt.leafKey
+			if corrupt == CWrongKey {
+				lk = (lk + 1) % len(w.priv)
+			}
+			sec = w.priv[lk]
+		}
+		// every eighth taproot input carries an annex (committed to by the digest, otherwise ignored)
+		var annex []byte
+		if in.Prev.Hash[0]%8 == 0 {
+			annex = append([]byte{0x50}, in.Prev.Hash[1:1+int(in.Prev.Hash[1]%20)]...)
+		}
 		sp := append([]Coin(nil), spent...)
 		if corrupt == CWrongAmount {
 			sp[i].Value++
@@ -448,7 +544,7 @@ func (w *Wallet) Sign(t *Tx, i int, spent []Coin, ht byte, corrupt int) string {
 				tht = ht
 			}
 		}
-		d, defined := TaprootDigest(t, i, sp, tht)
+		d, defined := TaprootDigestExt(t, i, sp, tht, annex, leaf)
 		if !defined {
 			d = [32]byte{} // the signer deliberately signs "some digest": all zeros
 			valid = false
@@ -461,6 +557,16 @@ func (w *Wallet) Sign(t *Tx, i int, spent []Coin, ht byte, corrupt int) string {
 			sig = append(sig, tht)
 		}
 		in.Wit = [][]byte{sig}
+		if tt != nil {
+			ctrl := append([]byte{0xc0 | tt.parity}, tt.internal...)
+			for _, e := range tt.path {
+				ctrl = append(ctrl, e[:]...)
+			}
+			in.Wit = [][]byte{sig, tt.leaf, ctrl}
+		}
+		if annex != nil {
+			in.Wit = append(in.Wit, annex)
+		}
 		in.ScriptSig = nil
 	case KTrue:
 		in.ScriptSig, in.Wit = nil, nil
